@@ -18,3 +18,16 @@ Proof.
   induction l as [|[k' v'] r IH]; cbn; [discriminate|].
   destruct (String.eqb_spec k k'); intros H; [injection H as <-; subst; auto | right; auto].
 Qed.
+
+(* a Python value of type  str | list[str] | None  (relationship / model key fields) *)
+Inductive pykey := KNone | KStr (s : string) | KList (l : list string).
+Definition key_is_none (k : pykey) : bool := match k with KNone => true | _ => false end.
+Definition key_is_str (k : pykey) : bool := match k with KStr _ => true | _ => false end.
+Definition key_is_list (k : pykey) : bool := match k with KList _ => true | _ => false end.
+Definition key_truthy (k : pykey) : bool :=
+  match k with KNone => false | KStr s => negb (String.eqb s "") | KList l => match l with [] => false | _ => true end end.
+(* coercions, only emitted under the corresponding isinstance / is-None guards *)
+Definition key_as_str (k : pykey) : string := match k with KStr s => s | _ => EmptyString end.
+Definition key_as_list (k : pykey) : list string := match k with KList l => l | KStr s => [s] | KNone => [] end.
+Definition key_of_optstr (o : option string) : pykey := match o with Some s => KStr s | None => KNone end.
+Definition key_or (a b : pykey) : pykey := if key_truthy a then a else b.
